@@ -271,7 +271,7 @@ def _main(modname, argv=None):
     pyopt = getattr(mod, "PYOPT", "sample")
     if pyopt != "none" and os.environ.get("VERIF_PYOPT", "1") != "0" and not args.inproc:
         # environment dimension: python -O.  A sample of the cases (every k-th of the seed's order) runs once more in -O interpreters.
-        want = len(cases) if pyopt == "all" else (min(len(cases), max(40, len(cases) // 8)) if tier == "quick" else max(40, len(cases) // 3))
+        want = len(cases) if pyopt == "all" else (min(len(cases), max(8, len(cases) // 6)) if tier == "quick" else min(len(cases), max(40, len(cases) // 3)))
         step = max(1, len(cases) // max(1, want))
         clones = []
         for c in cases[(seed % step)::step]:
